@@ -3,14 +3,13 @@ import material, report
 from checks import make_common as mc
 
 def mats(tier):
-    q = material.M(3) + [material.parse(x) for x in ('KRkr', 'KPkp', 'KPkr', 'KRkp')]
-    if tier == 'quick': return q
+    if tier == 'quick': return [material.parse(x) for x in ('KPk', 'Kkp', 'KRk', 'KNk', 'KRkr', 'KPkp')]
     t5 = [material.parse(x) for x in ('KRRkr', 'KPPkp', 'KRPkp', 'KPkrr', 'KQPkp', 'KBNkp', 'KRkpp', 'KRRkp')]
     return material.M(3) + material.M(4) + t5
 
 def check(ctx):
     ms = mats(ctx.tier)
-    nm = [material.parse(x) for x in ('KPk', 'KRkp', 'KPkp')]
+    nm = [material.parse(x) for x in (('KPkp',) if ctx.tier == 'quick' else ('KPk', 'KRkp', 'KPkp'))]
     qs, ws = mc.build(ctx, 'CHECK_C03', ms, nm, timeout=600 if ctx.tier == 'quick' else 2700)
     res = ctx.run_queries(qs + ws, label='c03')
     wit = [r for r in res if r.q.expect == 'witness']; res = [r for r in res if r.q.expect != 'witness']
